@@ -14,6 +14,7 @@ struct Frame
     uint64_t so, sa, sb;          // uniform strides
     uint64_t *io, *ia, *ib;       // per-lane start offsets
     uint64_t va, vb;              // by-value constant base elements
+    int regalias;                 // 1 / 2: call with the result register triple being the triple of operand a / b (in-place form)
     __m256i ra[3], rb[3], rc[3], rs[3]; // 4-lane registers: operand a (ra[0] = single register of base elements), b, output, sums
 #ifdef __AVX512__
     __m512i wa[3], wb[3], wc[3], ws[3]; // 8-lane registers
